@@ -31,7 +31,7 @@ REAL = ['py4hw.simulation.Simulator.clk/_clk_cycle/stop', 'py4hw.base.Wire.prepa
 STUB = ['stimulus (wire.put between clk calls)', 'cancelling listener']
 ASSUMPTIONS = ['inputs change only between clk calls, identically in both systems',
                'reference models in dsim/catalog.py']
-PROBES = ['stop_from_clock_method', 'edge_aborted_by_exception', 'clk_from_inside_listener', 'parameter_reassigned_after_read', 'bidir_sequential', 'simulator_fetched_in_clock', 'fsm_block', 'swap_pair', 'ring', 'memory', 'split_clk', 'stop_cancel', 'multi_driver']
+PROBES = ['ring_of_thousands', 'deep_hierarchy', 'stop_from_clock_method', 'edge_aborted_by_exception', 'clk_from_inside_listener', 'parameter_reassigned_after_read', 'bidir_sequential', 'simulator_fetched_in_clock', 'fsm_block', 'swap_pair', 'ring', 'memory', 'split_clk', 'stop_cancel', 'multi_driver']
 
 
 def gen(rs, tier, index):
@@ -45,7 +45,12 @@ def gen(rs, tier, index):
     seqk += kinds_with(tag='param')        # a parameterised block that forwards its parameter by reference (one or two levels)
     shape = rng.random()
     abort = False
-    if shape < 0.2:
+    bulk = None
+    if rng.random() < (0.004 if tier == 'quick' else 0.002):
+        # bulk: a ring of more than a thousand registers (thresholds inside the two-phase update: lists, counters, tables)
+        bulk = [rng.choice([300, 1100, 1100, 2100, 4200] if tier == 'quick' else [1100, 2100, 4200, 9000]), rng.choice([8, 16, 40]), rs.sub('bulk')]
+        d, _ = netlist.bulk_ring(*bulk)
+    elif shape < 0.2:
         d = swap_ring_design(rng)
     elif shape < 0.27:
         # abort: blocks whose state lives in wires only, plus a checker block whose clock() raises on demand: the caller
@@ -70,6 +75,8 @@ def gen(rs, tier, index):
         n = rng.choice([4, 6, 10, 16]) if tier == 'quick' else rng.choice([6, 12, 24, 40])
         d = netlist.gen_design(rng, n, comb, hier_depth=rng.choice([0, 1, 2]), feedback=rng.choice([0.2, 0.4, 0.6]),
                                seq_kinds=seqk, seq_frac=rng.choice([0.5, 0.7, 0.85]), maxw=40)
+    if not abort and not bulk and rng.random() < 0.05:
+        netlist.deepen(d, rng, rng.choice([12, 16, 17, 24, 33]))      # one group nested far deeper than usual
     stopblk = None
     if not abort and not d.get('ring') and d['inputs'] and rng.random() < 0.3:
         # a bench block that can end a clk(n) call from inside its clock() method
@@ -125,6 +132,8 @@ def gen(rs, tier, index):
         if pk and fr.random() < 0.3:
             # the parameter is re-assigned at the top of the block between clk() calls (after it has been read)
             steps[-1]['param'] = [fr.choice(pk)['id'], fr.choice([0, 1, 3, 7, 100])]
+    if bulk:
+        return {'design': None, 'order': None, 'bulk': bulk, 'steps': steps[:5]}     # regenerated from (n, w, seed) when executed
     return {'design': d, 'order': order, 'steps': steps}
 
 
@@ -190,7 +199,13 @@ def compare_states(real, twin, step, where):
 
 
 def run(scn, log, st):
+    if scn.get('bulk'):
+        d, order = netlist.bulk_ring(*scn['bulk'])
+        scn = dict(scn, design=d, order=order)
+        st.probe('ring_of_thousands')
     d = copy.deepcopy(scn['design'])        # parameter updates are applied to a private copy
+    if d.get('deepened'):
+        st.probe('deep_hierarchy')
     log.add('design', h64(repr(sorted((n['id'], n['kind'], tuple(n['ins'])) for n in d['nodes']))), 'order', h64(scn['order']))
     kinds = [n['kind'] for n in d['nodes']]
     if d.get('ring'):
@@ -348,6 +363,12 @@ def shrink(scn):
             c['steps'] = list(scn['steps'])
             c['steps'][i] = dict(s, n=1, parts=[1], stop_at=None)
             yield c
+    if scn.get('bulk'):
+        nb, w, sd = scn['bulk']
+        for m in (nb // 2, nb * 3 // 4, nb - 50, nb - 1):
+            if 2 <= m < nb:
+                yield dict(scn, bulk=[m, w, sd])
+        return
     d = scn['design']
     ids = [n['id'] for n in d['nodes']]
     if len(ids) > 1 and not d.get('ring'):
